@@ -317,6 +317,16 @@ mod tests {
         }
     }
 
+    #[test]
+    fn value_expr_minus_without_spaces() {
+        let want = expr::ValueExpr::Paren(expr::Expr::Binary(expr::BinaryOpExpr {
+            lhs: Box::new(amount_expr(1, "")),
+            op: expr::BinaryOp::Sub,
+            rhs: Box::new(amount_expr(2, "")),
+        }));
+        assert_eq!(expect_parse_ok(value_expr, "(1-2)"), ("", want));
+    }
+
     fn amount_expr<T: Into<Decimal>>(value: T, commodity: &'static str) -> expr::Expr<'static> {
         let v: Decimal = value.into();
         expr::Expr::Value(Box::new(expr::ValueExpr::Amount(expr::Amount {
